@@ -55,17 +55,18 @@ Record S1 (c c' : conn) : Prop := {
   s_next : next_cid c' = next_cid c;
   s_tf : t_finish c' = t_finish c;
   s_td : t_disc c' = t_disc c;
-  s_ct : call_tasks c' = call_tasks c }.
+  s_ct : call_tasks c' = call_tasks c;
+  s_ts : t_start c' = t_start c }.
 
-Definition ab (c : conn) := (calls c, next_cid c, t_finish c, t_disc c, call_tasks c).
+Definition ab (c : conn) := (calls c, next_cid c, t_finish c, t_disc c, call_tasks c, t_start c).
 Lemma S1_ab c c' : ab c' = ab c -> S1 c c'.
 Proof.
-  unfold ab. intro E. injection E as E1 E2 E3 E4 E5. constructor; try assumption. rewrite E1. apply callsrel_refl.
+  unfold ab. intro E. injection E as E1 E2 E3 E4 E5 E6. constructor; try assumption. rewrite E1. apply callsrel_refl.
 Qed.
 Lemma S1_refl c : S1 c c.
 Proof. apply S1_ab. reflexivity. Qed.
 Lemma S1_trans a b c : S1 a b -> S1 b c -> S1 a c.
-Proof. intros [A1 A2 A3 A4 A5] [B1 B2 B3 B4 B5]. constructor; try congruence. eapply callsrel_trans; eassumption. Qed.
+Proof. intros [A1 A2 A3 A4 A5 A6] [B1 B2 B3 B4 B5 B6]. constructor; try congruence. eapply callsrel_trans; eassumption. Qed.
 
 Lemma ab_set_start_future c : ab (set_start_future c) = ab c.
 Proof. unfold set_start_future. destruct (start_fut c); reflexivity. Qed.
@@ -159,7 +160,7 @@ Proof. induction 1 as [|x y l l' (E & _) _ IH]; cbn; [reflexivity|]. rewrite E, 
 
 Definition uniq (c : conn) : Prop := NoDup (map c_id (calls c)).
 Lemma uniq_S1 c c' : S1 c c' -> uniq c -> uniq c'.
-Proof. intros [H _ _ _ _] U. unfold uniq. rewrite (ids_callsrel _ _ H). exact U. Qed.
+Proof. intros [H _ _ _ _ _] U. unfold uniq. rewrite (ids_callsrel _ _ H). exact U. Qed.
 
 Lemma upd_const_unique l cid k k2 : NoDup (map c_id l) -> find (fun x => Nat.eqb (c_id x) cid) l = Some k -> callrel k k2 ->
   callsrel l (map (fun x => if Nat.eqb (c_id x) cid then k2 else x) l).
@@ -260,7 +261,7 @@ Record S0 (c c' : conn) : Prop := {
   z_next : next_cid c' = next_cid c }.
 Definition ac (c : conn) := (calls c, next_cid c).
 Lemma S0_S1 c c' : S1 c c' -> S0 c c'.
-Proof. intros [A B _ _ _]. constructor; assumption. Qed.
+Proof. intros [A B _ _ _ _]. constructor; assumption. Qed.
 Lemma S0_ac c c' : ac c' = ac c -> S0 c c'.
 Proof. unfold ac. intro E. injection E as E1 E2. constructor; [rewrite E1; apply callsrel_refl|exact E2]. Qed.
 Lemma S0_refl c : S0 c c.
@@ -302,7 +303,7 @@ Proof.
   destruct e; cbn [fst]; try reflexivity. destruct (Nat.eqb _ 0); cbn [fst]; apply ac_set_task.
 Qed.
 Lemma ab_ac c c' : ab c' = ab c -> ac c' = ac c.
-Proof. unfold ab, ac. intro E. injection E as E1 E2 _ _ _. congruence. Qed.
+Proof. unfold ab, ac. intro E. injection E as E1 E2 _ _ _ _. congruence. Qed.
 
 (* cancellation: a pending future may become cancelled *)
 Lemma F1_upd_cancel c cid : F1 c -> F1 (upd_call c cid (fun x => x <| c_fut := CCancelled |>)).
@@ -445,60 +446,76 @@ Lemma call_begin_next c owner send types ap st tmo :
   (next_cid (fst (fst (fst (call_begin c owner send types ap st tmo)))) <= S (next_cid c))%nat.
 Proof.
   unfold call_begin. pose proof (S1_send_messages c send) as H. destruct (send_messages c send) as [[c1 o] ex]. cbn [fst] in H.
-  destruct H as [_ N _ _ _]. destruct ex; cbn [fst]; [lia|].
+  destruct H as [_ N _ _ _ _]. destruct ex; cbn [fst]; [lia|].
   match goal with |- (next_cid (fold_left ?f ?l ?x) <= _)%nat =>
-    pose proof (ab_fold_add l (HCall (next_cid c1)) x) as Q; unfold ab in Q; injection Q as _ Q _ _ _; rewrite Q end.
+    pose proof (ab_fold_add l (HCall (next_cid c1)) x) as Q; unfold ab in Q; injection Q as _ Q _ _ _ _; rewrite Q end.
   cbn. lia.
 Qed.
+
+(* outcomes of the two connect phases: never a cancellation *)
+Definition res_lib (t : tid) (r : tres) : Prop := r = TOk \/ exists l, r = TRaise (Lib l).
+Definition outs_lib (o : list obs) : Prop := forall t r, In (OTaskDone t r) o -> res_lib t r.
+Lemma outs_lib_ok o : outs_lib o -> outs_ok o.
+Proof. intros H t r Hin. destruct (H t r Hin) as [A|A]; [left; exact A|right; left; exact A]. Qed.
+Lemma outs_lib_app a b : outs_lib a -> outs_lib b -> outs_lib (a ++ b).
+Proof. intros A B t r H. apply in_app_or in H. destruct H; auto. Qed.
+Lemma outs_lib_nodone o : no_done o -> outs_lib o.
+Proof. intros H t r Hin. exfalso. exact (H _ _ Hin). Qed.
+Lemma outs_lib_nil : outs_lib [].
+Proof. intros t r []. Qed.
+Lemma outs_lib_finish c t r : res_lib t r -> outs_lib (snd (finish_task c t r)).
+Proof. intro H. unfold finish_task. cbn [snd]. intros t' r' [E|[]]. injection E as <- <-. exact H. Qed.
+Lemma res_lib_wrap t c e : res_lib t (TRaise (wrap_fatal c e)).
+Proof. right. destruct (wrap_fatal_is_library c e) as [l H]. exists l. rewrite H. reflexivity. Qed.
 
 (* ---- start_connection ---- *)
 Lemma S0_cleanup c : S0 c (fst (cleanup c)).
 Proof. apply S0_S1, S1_cleanup. Qed.
 
-Lemma start_fail_A c e : S0 c (fst (start_fail c e)) /\ outs_ok (snd (start_fail c e)).
+Lemma start_fail_A c e : S0 c (fst (start_fail c e)) /\ outs_lib (snd (start_fail c e)).
 Proof.
   unfold start_fail. pose proof (ac_interrupt_exit c TStart e) as H0. destruct (interrupt_exit c TStart e) as [c0 e1]. cbn [fst] in H0.
   set (c1 := c0 <| intr_start := IExited |> <| conn_timer := None |>).
   assert (H1 : S0 c c1) by (apply S0_ac; rewrite <- H0; reflexivity).
   pose proof (S0_cleanup c1) as H2. pose proof (no_done_cleanup c1) as D. destruct (cleanup c1) as [c2 o]. cbn [fst snd] in H2, D.
   pose proof (ac_finish_task (set_start_future c2) TStart (TRaise (wrap_fatal c2 e1))) as H4.
-  pose proof (outs_ok_finish (set_start_future c2) TStart (TRaise (wrap_fatal c2 e1)) (res_ok_wrap _ _ _)) as O4.
+  pose proof (outs_lib_finish (set_start_future c2) TStart (TRaise (wrap_fatal c2 e1)) (res_lib_wrap _ _ _)) as O4.
   destruct (finish_task (set_start_future c2) TStart (TRaise (wrap_fatal c2 e1))) as [c4 o2]. cbn [fst snd] in *. split.
   - eapply S0_trans; [exact H1|]. eapply S0_trans; [exact H2|]. apply S0_ac. rewrite H4. apply ab_ac, ab_set_start_future.
-  - apply outs_ok_app; [apply outs_ok_nodone; exact D|exact O4].
+  - apply outs_lib_app; [apply outs_lib_nodone; exact D|exact O4].
 Qed.
 
-Lemma cleanup_finish_A c t (mk : conn -> tres) : (forall x, res_ok t (mk x)) ->
+Lemma cleanup_finish_A c t (mk : conn -> tres) : (forall x, res_lib t (mk x)) ->
   let r := (let '(c3, o) := cleanup c in let '(c4, o2) := finish_task c3 t (mk c3) in (c4, o ++ o2)) in
-  S0 c (fst r) /\ outs_ok (snd r).
+  S0 c (fst r) /\ outs_lib (snd r).
 Proof.
   intro Hr. pose proof (S0_cleanup c) as H. pose proof (no_done_cleanup c) as D. destruct (cleanup c) as [c3 o]. cbn [fst snd] in H, D.
-  pose proof (ac_finish_task c3 t (mk c3)) as H2. pose proof (outs_ok_finish c3 t (mk c3) (Hr c3)) as O2.
+  pose proof (ac_finish_task c3 t (mk c3)) as H2. pose proof (outs_lib_finish c3 t (mk c3) (Hr c3)) as O2.
   destruct (finish_task c3 t (mk c3)) as [c4 o2]. cbn [fst snd] in *. split.
   - eapply S0_trans; [exact H|apply S0_ac; exact H2].
-  - apply outs_ok_app; [apply outs_ok_nodone; exact D|exact O2].
+  - apply outs_lib_app; [apply outs_lib_nodone; exact D|exact O2].
 Qed.
 
-Lemma start_success_A c : S0 c (fst (start_success c)) /\ outs_ok (snd (start_success c)).
+Lemma start_success_A c : S0 c (fst (start_success c)) /\ outs_lib (snd (start_success c)).
 Proof.
   unfold start_success.
   set (c1 := c <| socket := true |> <| sock_obj := false |> <| intr_start := IExited |> <| conn_timer := None |>).
   pose proof (ab_set_start_future c1) as E2. set (c2 := set_start_future c1) in *.
   assert (H2 : S0 c c2) by (apply S0_ac, ab_ac; rewrite E2; reflexivity).
   destruct (cs c2).
-  5: { destruct (cleanup_finish_A c2 TStart (fun c3 => TRaise (wrap_fatal c3 Interrupted)) (fun x => res_ok_wrap _ _ _)) as [A B].
+  5: { destruct (cleanup_finish_A c2 TStart (fun c3 => TRaise (wrap_fatal c3 Interrupted)) (fun x => res_lib_wrap _ _ _)) as [A B].
        split; [eapply S0_trans; [exact H2|exact A]|exact B]. }
-  all: split; [eapply S0_trans; [exact H2|]; apply S0_ac; reflexivity|apply outs_ok_finish; left; reflexivity].
+  all: split; [eapply S0_trans; [exact H2|]; apply S0_ac; reflexivity|apply outs_lib_finish; left; reflexivity].
 Qed.
 
-Lemma wake_start_A c c' o : wake_start c = Some (c', o) -> S0 c c' /\ outs_ok o.
+Lemma wake_start_A c c' o : wake_start c = Some (c', o) -> S0 c c' /\ outs_lib o.
 Proof.
   unfold wake_start. intro E.
   destruct (pc (get_task c TStart)) eqn:Epc; try discriminate.
   - destruct (must_cancel (get_task c TStart) || negb match do_connect c with EPending => true | _ => false end); [|discriminate].
     pose proof (ac_take_cancel c TStart) as E1. destruct (take_cancel c TStart) as [c1 mc]. cbn [fst] in E1.
     match type of E with match ?d with _ => _ end = _ => destruct d as [|e] end.
-    + apply some_pair_inv in E. destruct E as [<- <-]. split; [apply S0_ac; rewrite <- E1; reflexivity|apply outs_ok_nil].
+    + apply some_pair_inv in E. destruct E as [<- <-]. split; [apply S0_ac; rewrite <- E1; reflexivity|apply outs_lib_nil].
     + pose proof (ac_timeout_exit (c1 <| conn_timer := None |>) TStart e) as E2.
       destruct (timeout_exit (c1 <| conn_timer := None |>) TStart e) as [c2 e1]. cbn [fst] in E2.
       apply some_inj in E.
@@ -514,65 +531,65 @@ Proof.
     + pose proof (ac_timeout_exit (c1 <| conn_timer := None |>) TStart e) as E2.
       destruct (timeout_exit (c1 <| conn_timer := None |>) TStart e) as [c2 e1]. cbn [fst] in E2.
       assert (H2 : S0 c c2) by (apply S0_ac; rewrite E2, <- E1; reflexivity).
-      assert (SF : forall x r, Some (start_fail c2 x) = Some r -> S0 c (fst r) /\ outs_ok (snd r)).
+      assert (SF : forall x r, Some (start_fail c2 x) = Some r -> S0 c (fst r) /\ outs_lib (snd r)).
       { intros x r Er. apply some_inj in Er. destruct (start_fail_A c2 x) as [A B]. rewrite Er in A, B.
         split; [eapply S0_trans; eassumption|exact B]. }
       destruct (is_oserror e1).
       * match type of E with match ?g with O => _ | S _ => _ end = _ => destruct g as [|[|g']] end.
         -- exact (SF _ _ E).
         -- exact (SF _ _ E).
-        -- apply some_pair_inv in E. destruct E as [<- <-]. split; [eapply S0_trans; [exact H2|]; apply S0_ac; reflexivity|apply outs_ok_nil].
+        -- apply some_pair_inv in E. destruct E as [<- <-]. split; [eapply S0_trans; [exact H2|]; apply S0_ac; reflexivity|apply outs_lib_nil].
       * exact (SF _ _ E).
 Qed.
 
 (* ---- finish_connection ---- *)
-Lemma finish_fail_A c e : S0 c (fst (finish_fail c e)) /\ outs_ok (snd (finish_fail c e)).
+Lemma finish_fail_A c e : S0 c (fst (finish_fail c e)) /\ outs_lib (snd (finish_fail c e)).
 Proof.
   unfold finish_fail. pose proof (ac_interrupt_exit c TFinish e) as H0. destruct (interrupt_exit c TFinish e) as [c0 e1]. cbn [fst] in H0.
   set (c1 := c0 <| intr_finish := IExited |> <| hs_timer := None |>).
   assert (H1 : S0 c c1) by (apply S0_ac; rewrite <- H0; reflexivity).
   pose proof (S0_cleanup c1) as H2. pose proof (no_done_cleanup c1) as D. destruct (cleanup c1) as [c2 o]. cbn [fst snd] in H2, D.
   pose proof (ac_finish_task (set_finish_future c2) TFinish (TRaise (wrap_fatal c2 e1))) as H4.
-  pose proof (outs_ok_finish (set_finish_future c2) TFinish (TRaise (wrap_fatal c2 e1)) (res_ok_wrap _ _ _)) as O4.
+  pose proof (outs_lib_finish (set_finish_future c2) TFinish (TRaise (wrap_fatal c2 e1)) (res_lib_wrap _ _ _)) as O4.
   destruct (finish_task (set_finish_future c2) TFinish (TRaise (wrap_fatal c2 e1))) as [c4 o2]. cbn [fst snd] in *. split.
   - eapply S0_trans; [exact H1|]. eapply S0_trans; [exact H2|]. apply S0_ac. rewrite H4. apply ab_ac, ab_set_finish_future.
-  - apply outs_ok_app; [apply outs_ok_nodone; exact D|exact O4].
+  - apply outs_lib_app; [apply outs_lib_nodone; exact D|exact O4].
 Qed.
-Lemma finish_success_A c : S0 c (fst (finish_success c)) /\ outs_ok (snd (finish_success c)).
+Lemma finish_success_A c : S0 c (fst (finish_success c)) /\ outs_lib (snd (finish_success c)).
 Proof.
   unfold finish_success. set (c1 := c <| intr_finish := IExited |>).
   pose proof (ab_set_finish_future c1) as E2. set (c2 := set_finish_future c1) in *.
   assert (H2 : S0 c c2) by (apply S0_ac, ab_ac; rewrite E2; reflexivity).
   destruct (cs c2).
-  5: { destruct (cleanup_finish_A c2 TFinish (fun c3 => TRaise (wrap_fatal c3 Interrupted)) (fun x => res_ok_wrap _ _ _)) as [A B].
+  5: { destruct (cleanup_finish_A c2 TFinish (fun c3 => TRaise (wrap_fatal c3 Interrupted)) (fun x => res_lib_wrap _ _ _)) as [A B].
        split; [eapply S0_trans; [exact H2|exact A]|exact B]. }
-  all: split; [eapply S0_trans; [exact H2|]; apply S0_ac; reflexivity|apply outs_ok_finish; left; reflexivity].
+  all: split; [eapply S0_trans; [exact H2|]; apply S0_ac; reflexivity|apply outs_lib_finish; left; reflexivity].
 Qed.
 
 (* F1 c -> F1 c' and classified outcomes: the shape of every remaining lemma *)
-Definition A1 (c : conn) (r : conn * list obs) : Prop := F1 c -> F1 (fst r) /\ outs_ok (snd r).
-Lemma A1_S0 c r : S0 c (fst r) /\ outs_ok (snd r) -> A1 c r.
+Definition A1L (c : conn) (r : conn * list obs) : Prop := F1 c -> F1 (fst r) /\ outs_lib (snd r).
+Lemma A1L_S0 c r : S0 c (fst r) /\ outs_lib (snd r) -> A1L c r.
 Proof. intros [A B] H. split; [eapply F1_S0; eassumption|exact B]. Qed.
 
-Lemma finish_after_ready_A c : A1 c (finish_after_ready c).
+Lemma finish_after_ready_A c : A1L c (finish_after_ready c).
 Proof.
   intro H. unfold finish_after_ready. set (c0 := c <| hs_timer := None |>).
   assert (H0 : F1 c0) by (apply (F1_S0 c c0); [apply S0_ac; reflexivity|exact H]).
   destruct (cs c0) eqn:Ecs.
-  5: { apply (A1_S0 c0 _ (finish_fail_A c0 Interrupted) H0). }
+  5: { apply (A1L_S0 c0 _ (finish_fail_A c0 Interrupted) H0). }
   all: match goal with |- context [call_begin ?x ?a ?b ?d ?e ?f ?g] =>
          assert (H1 : F1 x) by (apply (F1_S0 c0 x); [apply S0_ac; unfold internal_handlers; rewrite !(ab_ac _ _ (ab_add _ _ _)); reflexivity|exact H0]);
          pose proof (F1_call_begin x a b d e f g H1) as H2; pose proof (no_done_call_begin x a b d e f g) as D2;
          destruct (call_begin x a b d e f g) as [[[c2 o] ex] cid] end;
        cbn [fst snd] in H2, D2; destruct ex as [e|];
        [ destruct (finish_fail_A c2 e) as [A B]; destruct (finish_fail c2 e) as [c3 o3]; cbn [fst snd] in *;
-         split; [eapply F1_S0; eassumption|apply outs_ok_app; [apply outs_ok_nodone; exact D2|exact B]]
-       | cbn [fst snd]; split; [exact H2|apply outs_ok_nodone; exact D2] ].
+         split; [eapply F1_S0; eassumption|apply outs_lib_app; [apply outs_lib_nodone; exact D2|exact B]]
+       | cbn [fst snd]; split; [exact H2|apply outs_lib_nodone; exact D2] ].
 Qed.
 
 Ltac finA E L := apply some_inj in E; let H := fresh "HA" in pose proof L as H; rewrite E in H.
 
-Lemma wake_finish_A c c' o : wake_finish c = Some (c', o) -> A1 c (c', o).
+Lemma wake_finish_A c c' o : wake_finish c = Some (c', o) -> A1L c (c', o).
 Proof.
   unfold wake_finish. intros E H.
   destruct (pc (get_task c TFinish)) eqn:Epc; try discriminate.
@@ -583,27 +600,27 @@ Proof.
     + set (c2 := c1 <| helper := helper_obj c1 |> <| hs_timer := Some (now c1 + HANDSHAKE_TIMEOUT) |>) in *.
       assert (H2 : F1 c2) by (apply (F1_S0 c c2); [apply S0_ac; rewrite <- E1; reflexivity|exact H]).
       destruct (ready c2).
-      * apply some_pair_inv in E. destruct E as [<- <-]. split; [|apply outs_ok_nil].
+      * apply some_pair_inv in E. destruct E as [<- <-]. split; [|apply outs_lib_nil].
         eapply F1_S0; [apply S0_ac, ac_set_task|exact H2].
       * finA E (finish_after_ready_A c2 H2). exact HA.
-      * match type of E with Some (finish_fail c2 ?x) = _ => finA E (A1_S0 c2 _ (finish_fail_A c2 x) H2) end. exact HA.
-      * finA E (A1_S0 c2 _ (finish_fail_A c2 CancelledErr) H2). exact HA.
+      * match type of E with Some (finish_fail c2 ?x) = _ => finA E (A1L_S0 c2 _ (finish_fail_A c2 x) H2) end. exact HA.
+      * finA E (A1L_S0 c2 _ (finish_fail_A c2 CancelledErr) H2). exact HA.
     + match type of E with context [finish_fail ?x e] => set (c2 := x) in *; destruct (finish_fail_A c2 e) as [A B] end.
       assert (H2 : F1 c2) by (apply (F1_S0 c c2); [apply S0_ac; rewrite <- E1; unfold c2; destruct (transport c1); reflexivity|exact H]).
       destruct (finish_fail c2 e) as [c3 o3]. cbn [fst snd] in A, B. apply some_pair_inv in E. destruct E as [<- <-]. cbn [fst snd]. split.
       * eapply F1_S0; eassumption.
-      * apply outs_ok_app; [apply outs_ok_nodone, no_done_lit; destruct (transport c1); reflexivity|exact B].
+      * apply outs_lib_app; [apply outs_lib_nodone, no_done_lit; destruct (transport c1); reflexivity|exact B].
   - (* PF_Ready *)
     destruct (must_cancel (get_task c TFinish) || negb match ready c with RPending => true | _ => false end); [|discriminate].
     pose proof (ac_take_cancel c TFinish) as E1. destruct (take_cancel c TFinish) as [c1 mc]. cbn [fst] in E1.
     assert (H1 : F1 c1) by (apply (F1_S0 c c1); [apply S0_ac; exact E1|exact H]).
     destruct mc.
-    + finA E (A1_S0 c1 _ (finish_fail_A c1 CancelledErr) H1). exact HA.
+    + finA E (A1L_S0 c1 _ (finish_fail_A c1 CancelledErr) H1). exact HA.
     + destruct (ready c1).
-      * finA E (A1_S0 c1 _ (finish_fail_A c1 CancelledErr) H1). exact HA.
+      * finA E (A1L_S0 c1 _ (finish_fail_A c1 CancelledErr) H1). exact HA.
       * finA E (finish_after_ready_A c1 H1). exact HA.
-      * match type of E with Some (finish_fail c1 ?x) = _ => finA E (A1_S0 c1 _ (finish_fail_A c1 x) H1) end. exact HA.
-      * finA E (A1_S0 c1 _ (finish_fail_A c1 CancelledErr) H1). exact HA.
+      * match type of E with Some (finish_fail c1 ?x) = _ => finA E (A1L_S0 c1 _ (finish_fail_A c1 x) H1) end. exact HA.
+      * finA E (A1L_S0 c1 _ (finish_fail_A c1 CancelledErr) H1). exact HA.
   - (* PF_Hello *)
     destruct (get_call c cid) as [kk|]; [|discriminate].
     destruct (must_cancel (get_task c TFinish) || cfut_done (c_fut kk)); [|discriminate].
@@ -612,10 +629,16 @@ Proof.
     assert (H2 : F1 c2) by (apply (F1_S0 c c2); [eapply S0_trans; [apply S0_ac; exact E1|apply S0_S1; exact Ef]|exact H]).
     match type of E with match ?d with _ => _ end = _ => destruct d as [|e] end.
     + destruct (check_hello_login c2 (c_responses kk)) as [e|].
-      * finA E (A1_S0 c2 _ (finish_fail_A c2 e) H2). exact HA.
-      * finA E (A1_S0 c2 _ (finish_success_A c2) H2). exact HA.
-    + finA E (A1_S0 c2 _ (finish_fail_A c2 e) H2). exact HA.
+      * finA E (A1L_S0 c2 _ (finish_fail_A c2 e) H2). exact HA.
+      * finA E (A1L_S0 c2 _ (finish_success_A c2) H2). exact HA.
+    + finA E (A1L_S0 c2 _ (finish_fail_A c2 e) H2). exact HA.
 Qed.
+
+Definition A1 (c : conn) (r : conn * list obs) : Prop := F1 c -> F1 (fst r) /\ outs_ok (snd r).
+Lemma A1_S0 c r : S0 c (fst r) /\ outs_ok (snd r) -> A1 c r.
+Proof. intros [A B] H. split; [eapply F1_S0; eassumption|exact B]. Qed.
+Lemma A1_L c r : A1L c r -> A1 c r.
+Proof. intros H F. destruct (H F) as [A B]. split; [exact A|apply outs_lib_ok; exact B]. Qed.
 
 (* ---- disconnect() ---- *)
 Lemma res_ok_disc_cancel : res_ok TDisc (TRaise CancelledErr).
@@ -632,11 +655,11 @@ Proof.
       destruct (call_begin c1 a b d e f g) as [[[c2 o] ex] cid] end.
     cbn [fst snd] in H2, D2, X2. destruct ex as [e|].
     + destruct X2 as [l ->].
-      destruct (cleanup_finish_A c2 TDisc (fun _ => TOk) (fun _ => or_introl eq_refl)) as [A B].
+      destruct (cleanup_finish_A c2 TDisc (fun _ => TOk) (fun _ => or_introl eq_refl)) as [A B]. apply outs_lib_ok in B.
       destruct (cleanup c2) as [c3 o3]. destruct (finish_task c3 TDisc TOk) as [c4 o4]. cbn [fst snd] in *.
       split; [eapply F1_S0; eassumption|]. apply outs_ok_app; [apply outs_ok_nodone; exact D2|exact B].
     + cbn [fst snd]. split; [eapply F1_S0; [apply S0_ac, ac_set_task|exact H2]|apply outs_ok_nodone; exact D2].
-  - destruct (cleanup_finish_A c1 TDisc (fun _ => TOk) (fun _ => or_introl eq_refl)) as [A B].
+  - destruct (cleanup_finish_A c1 TDisc (fun _ => TOk) (fun _ => or_introl eq_refl)) as [A B]. apply outs_lib_ok in B.
     destruct (cleanup c1) as [c3 o3]. destruct (finish_task c3 TDisc TOk) as [c4 o4]. cbn [fst snd] in *.
     split; [eapply F1_S0; eassumption|exact B].
 Qed.
@@ -679,7 +702,7 @@ Proof.
     assert (H2 : F1 c2) by (apply (F1_S0 c c2); [eapply S0_trans; [apply S0_ac; exact E1|apply S0_S1; exact Ef]|exact H]).
     pose proof (deliver_cases kk (F1_get_call c cid kk H Eg)) as DC.
     assert (T1 : forall r, (let '(c3, o) := cleanup c2 in let '(c4, o2) := finish_task c3 TDisc TOk in Some (c4, o ++ o2)) = Some r -> F1 (fst r) /\ outs_ok (snd r)).
-    { intros r Er. destruct (cleanup_finish_A c2 TDisc (fun _ => TOk) (fun _ => or_introl eq_refl)) as [A B].
+    { intros r Er. destruct (cleanup_finish_A c2 TDisc (fun _ => TOk) (fun _ => or_introl eq_refl)) as [A B]. apply outs_lib_ok in B.
       destruct (cleanup c2) as [c3 o3]. destruct (finish_task c3 TDisc TOk) as [c4 o4]. apply some_inj in Er. subst r. cbn [fst snd] in *.
       split; [eapply F1_S0; eassumption|exact B]. }
     assert (T2 : forall r, Some (finish_task c2 TDisc (TRaise CancelledErr)) = Some r -> F1 (fst r) /\ outs_ok (snd r)).
@@ -806,8 +829,8 @@ Proof.
   - (* LAdvance *) destruct (_ && _); [sameA E|discriminate].
   - (* LWake *)
     destruct t.
-    + apply (A1_S0 c (c', o) (wake_start_A c c' o E) H).
-    + apply (wake_finish_A c c' o E H).
+    + destruct (wake_start_A c c' o E) as [Sa Oa]. split; [eapply F1_S0; eassumption|apply outs_lib_ok; exact Oa].
+    + apply (A1_L c (c', o) (wake_finish_A c c' o E) H).
     + apply (wake_disc_A c c' o E H).
     + apply (wake_call_A c cid c' o E H).
   - (* LIntr *)
